@@ -13,9 +13,11 @@
 
 Anything outside the grammar raises TranslateError(file, line, construct).
 
-GRAMMAR (function bodies: `name = E` statements - a name may be assigned again, later reads see the latest value -
+GRAMMAR (function bodies: `name = E` / `a, b = E, E` statements - a name may be assigned again, later reads see the
+latest value; in a tuple assignment every right-hand side is evaluated before any name is bound -
 then `return E` / `self.static_p_array = E`)
     V ::= self.volumes | self.v_array | <array parameter> | local | V + V | V - V | V * V | V / V | - V
+        | numpy.add/subtract/multiply/divide(V, V) | numpy.negative(V)            (ufunc spellings of the operators)
         | calculate_eulerian_strain(S, V)                -> map (eulerian S) V
         | numpy.polyval(C, V)                            -> map (polyval C) V
         | _from_gpa(V)                                   -> map from_gpa V
@@ -34,6 +36,7 @@ static_energy_array = static_energy_array[1]` (qha < 1.1 compatibility), every c
 _calculate_pressure_static uses the default order.
 """
 import ast
+import re
 
 from tie_common import (TranslateError, parse, src_of, body_no_doc, module_class, class_method, arg_names, no_reflection,
                         module_binding_checks, int_const, zlit)
@@ -122,6 +125,18 @@ class Flow:
             self.bail(e, "subscript `%s` (accepted: A[n], n a non-negative integer literal)" % s[:80])
         if isinstance(e, ast.Call):
             f = src_of(e.func)
+            ufun = {"numpy.add": "add", "numpy.subtract": "sub", "numpy.multiply": "mul", "numpy.divide": "div",
+                    "numpy.true_divide": "div"}
+            if f in ufun and len(e.args) == 2 and not e.keywords:
+                # the ufunc spelling of an elementwise operator on two arrays
+                a1, t1 = self.need(e.args[0], "V")
+                a2, t2 = self.need(e.args[1], "V")
+                if a1 != a2:
+                    self.bail(e, "`%s` combines an array over the %s volumes with an array over the %s volumes" % (s[:80], a1, a2))
+                return "V", a1, "(zipw %s %s %s)" % (ufun[f], t1, t2)
+            if f == "numpy.negative" and len(e.args) == 1 and not e.keywords:
+                ax, t = self.need(e.args[0], "V")
+                return "V", ax, "(map opp %s)" % t
             if f == "calculate_eulerian_strain":
                 args, _ = self.call_args(e, 2)
                 if len(args) != 2:
@@ -192,14 +207,25 @@ class Flow:
         self.bail(e, "expression `%s`" % s[:120])
 
     def assign(self, s):
+        if isinstance(s, ast.Assign) and len(s.targets) == 1 and isinstance(s.targets[0], ast.Tuple) \
+                and isinstance(s.value, ast.Tuple) and len(s.targets[0].elts) == len(s.value.elts) \
+                and all(isinstance(t, ast.Name) for t in s.targets[0].elts) \
+                and len({t.id for t in s.targets[0].elts}) == len(s.value.elts):
+            # a, b = E1, E2: every right-hand side is evaluated (in the OLD environment) before any name is bound
+            vals = [self.expr(v) for v in s.value.elts]
+            for t, v in zip(s.targets[0].elts, vals):
+                self.bind(t.id, v, s)
+            return
         if not (isinstance(s, ast.Assign) and len(s.targets) == 1 and isinstance(s.targets[0], ast.Name)):
-            self.bail(s, "statement `%s` (accepted: `name = expression`)" % src_of(s)[:80].split("\n")[0])
-        nm = s.targets[0].id
+            self.bail(s, "statement `%s` (accepted: `name = expression`, `a, b = E, E`)" % src_of(s)[:80].split("\n")[0])
+        self.bind(s.targets[0].id, self.expr(s.value), s)
+
+    def bind(self, nm, val, s):
         if nm in self.vec_params or nm in self.int_params or nm in ("self", "numpy", "key"):
             self.bail(s, "assignment to the parameter / reserved name `%s`" % nm)
         if not nm.isidentifier() or not nm.isascii():
             self.bail(s, "local name `%s`" % nm)
-        k, ax, t = self.expr(s.value)
+        k, ax, t = val
         v = self.version.get(nm, 0) + 1
         self.version[nm] = v
         ident = "l_%s_%d" % (nm, v)
@@ -311,14 +337,32 @@ def translate_full_modulus(src, calc_src, adapter_src):
                 raise TranslateError(FM, n, "fit_modulus called as `%s`" % src_of(n.func))
         if isinstance(n, ast.Attribute) and n.attr in ("fit_modulus", "get_static_modulus") and isinstance(n.ctx, (ast.Store, ast.Del)):
             raise TranslateError(FM, n, "assignment to `%s`" % src_of(n))
-    # the static modulus enters the totals as get_static_modulus(key)[nax, :] + phonon part
+    # the static modulus enters the totals as get_static_modulus(key)[nax, :] + phonon part (glue; two accepted spellings:
+    # the loop in each property, or one helper taking the phonon-contribution dict)
     for name, contrib in (("modulus_adiabatic", "_adiabatic_phonon_contribution"), ("modulus_isothermal", "_isothermal_phonon_contribution")):
         m = class_method(cls, FM, name, ["LazyProperty"])
-        want = ["results = dict()",
+        arg_names(m, FM, ["self"])
+        body = [src_of(x) for x in body_no_doc(m)]
+        loop = ["results = dict()",
                 "for key in self.modulus_keys:\n    results[key] = self.get_static_modulus(key)[nax, :] + self.%s[key]" % contrib,
                 "return results"]
-        if [src_of(s) for s in body_no_doc(m)] != want:
-            raise TranslateError(FM, m, "%s is not `results[key] = self.get_static_modulus(key)[nax, :] + self.%s[key]` over self.modulus_keys" % (name, contrib))
+        ok = body == loop or body == ["return {key: self.get_static_modulus(key)[nax, :] + self.%s[key] for key in self.modulus_keys}" % contrib]
+        if not ok and len(body) == 1:
+            mm = re.fullmatch(r"return self\.(\w+)\(self\.%s\)" % contrib, body[0])
+            if mm:
+                h = class_method(cls, FM, mm.group(1))
+                if len(h.args.args) == 2 and h.args.args[0].arg == "self":
+                    arg_names(h, FM, [a.arg for a in h.args.args])
+                    par = h.args.args[1].arg
+                    hb = [src_of(x) for x in body_no_doc(h)]
+                    ok = hb == ["return {key: self.get_static_modulus(key)[nax, :] + %s[key] for key in self.modulus_keys}" % par] or \
+                        hb == ["results = dict()",
+                               "for key in self.modulus_keys:\n    results[key] = self.get_static_modulus(key)[nax, :] + %s[key]" % par,
+                               "return results"]
+                    ok = ok and par not in ("key", "self", "nax")
+        if not ok:
+            raise TranslateError(FM, m, "%s is not `{key: self.get_static_modulus(key)[nax, :] + self.%s[key]}` over self.modulus_keys "
+                                        "(loop, dict comprehension, or one helper method taking the contribution dict)" % (name, contrib))
     return dict(fit=fit_text, default_order=default_order, static=static_text)
 
 
